@@ -18,6 +18,7 @@ of chips silently misses each fill.  Per case:
 """
 import os
 import shutil
+import struct
 import tempfile
 
 from harness import simnet, simmachine
@@ -28,7 +29,8 @@ CLAIM = dict(
           "a machine specification (per core state/app id/image; fill = FFS, FFCS*, FFD*, FFE; every chip takes part in a "
           "whole fill or, if in that fill's missed set, ignores it), for ALL application maps, images, buffer sizes, "
           "machines and ALL per-fill missed sets: every fill the controller sends is well formed (announced block count = "
-          "blocks sent, numbered 0,1,2.., each block <= buffer, concatenation = image, one even id in 2..252, FFCS between "
+          "blocks sent, numbered 0,1,2.., each block <= buffer, concatenation = image, one even id in 2..252 - for every "
+          "buffer size that is a multiple of 4 up to 1024, not only the usual 256 -, FFCS between "
           "FFS and the first data packet and STRICTLY INCREASING - derived in Lean from C12's theorems for C12's model of "
           "compress_flood_fill_regions, fill_wellformed_c12); a well-formed fill loads exactly the selected cores of the chips "
           "that took part; under PreClean (no core waiting under this app id, no requested core waiting) a normal return "
@@ -60,7 +62,10 @@ CLAIM = dict(
           "run, not proved): that the model equals the code (trace correspondence on generated cases); regionsOK on every "
           "pair the implementation produced (the proof is about C12's model of compress, whose output equals the "
           "implementation's in every fill compared). Packet loss inside a fill is abstracted to whole-fill misses per "
-          "chip. Domain: image length and buffer multiples of 4, <= 255 blocks (8-bit field of the start packet: beyond "
+          "chip. Domain: image length and buffer multiples of 4, buffer <= 1024 (8-bit word count of a data block; generators "
+          "use 4..1024 incl. sizes above 256; outside: a buffer that is not a multiple of 4 makes the last block's word "
+          "count negative -> struct.error, a buffer > 1024 spills the word count into the block number), <= 255 blocks "
+          "(8-bit field of the start packet: beyond "
           "it the fill is malformed - known finding ffs-block-count-overflow), requested chips exist (coordinates < 256 "
           "for the _c12 theorems), cores < 18, binaries target disjoint cores, each core listed once (for the count "
           "clause of staleMasks). wait_for_cores_to_reach_state: the iterable of states must be re-iterable (a generator "
@@ -86,7 +91,12 @@ THEOREMS = ["nnid_range", "fill_wellformed", "fill_loads_exactly", "attempts_bou
 THEOREMS += ['gen_get_next_nn_id']   # translator tie: generated function bodies = model (Props/C09Gen.lean)
 
 RULE = ("cases = (machine of 1-40 chips: rectangles at several origins incl. aligned 4x4/8x8 blocks, scattered chips up to "
-        "coordinate 255; 1-3 binaries of length around multiples of the buffer (buffer in {4,8,16,64,128,256}); core sets "
+        "coordinate 255; SCP data buffer reported by sver in {4,8,16,64,128,252,256,260,384,512,1024} (incl. machines with a "
+        "buffer LARGER than the usual 256 bytes), version in sver as semantic-version string or legacy fixed point; 1-3 "
+        "binaries of 0 .. 5 buffers, lengths around multiples of the buffer and around multiples of 256; sdram_sys at the "
+        "bottom / typical / top of SDRAM, several vcpu bases; call as map / (filename, targets) / through the controller "
+        "context with use_count defaulted; fixed cases: two binaries of 2 buffers and 2 buffers + 1 word on machines with "
+        "128/260/512/1024 byte buffers, both modes; core sets "
         "incl. whole blocks with one core, disjoint between binaries; app id, n_tries 0-3, wait on/off, count / read-back "
         "mode, starting nn-id incl. 125/126; per-fill missed sets none / random / all / alternating / all-then-none; "
         "pre-existing cores: none, other app ids, stale waiters of the same app id on requested and on other cores); "
@@ -98,7 +108,10 @@ RULE = ("cases = (machine of 1-40 chips: rectangles at several origins incl. ali
         "ticks, clock scripts advancing by one / jumping / stalling, up to 5 evolution steps of the machine during the "
         "sleeps, fuel 4-9), non-trivial = at least one sleep, a list of states, an error or a delivered signal")
 
-BUFS = [4, 8, 16, 16, 64, 64, 128, 256, 256]
+# SCP data buffer sizes the machine reports through sver (scp_data_length): the usual 256, small ones, and
+# machines with a LARGER buffer (every multiple of 4 up to 1024 is in the domain: the word count of a data
+# block is an 8-bit field); 252 / 260 sit next to 256, the value SC&MP ships with
+BUFS = [4, 8, 16, 64, 64, 128, 128, 252, 256, 256, 260, 384, 512, 512, 1024]
 WAIT, RUN, IDLE = 5, 7, 15
 KNOWN_KEYS = ("count-shortcut-stale-waiters", "readback-stale-waiter", "ffs-block-count-overflow")
 
@@ -118,8 +131,9 @@ def sim_selects(region, x, y):
 
 
 class LoadMachine(simmachine.SimMachine):
-    def __init__(self, chips, buffer_size, sdram_sys, vcpu_base, missed, pre, consts):
+    def __init__(self, chips, buffer_size, sdram_sys, vcpu_base, missed, pre, consts, sver="semver"):
         super(LoadMachine, self).__init__(1, 1, buffer_size=buffer_size, root=tuple(chips[0]))
+        self.sver = sver
         self.k = consts
         self.chips = [tuple(c) for c in chips]
         self.sdram_sys, self.vcpu_base = sdram_sys, vcpu_base
@@ -134,6 +148,15 @@ class LoadMachine(simmachine.SimMachine):
 
     def core(self, x, y, p):
         return self.cores.get((x, y, p), (IDLE, 0, ()))
+
+    # SVER: buffer size in the low half of arg2; version either as a string after the name (0xffff) or,
+    # as older SC&MP does, in decimal fixed point in the high half of arg2
+    def cmd_0(self, req):
+        rc, args, data = super(LoadMachine, self).cmd_0(req)
+        if self.sver == "legacy":
+            args = (args[0], (134 << 16) | self.buffer_size, args[2])
+            data = b"SC&MP/SpiNNaker"
+        return rc, args, data
 
     def handle(self, request):
         raw = simnet.parse_scp(request)
@@ -288,11 +311,17 @@ def dedup(chips):
 
 
 def gen_image(rng, buf, big):
-    k = rng.choice([1, 1, 2, 2, 3, 5])
+    """binaries of 0 .. several buffers, lengths around multiples of the buffer size AND around multiples of
+    256 (the size a data block would have on the usual machine), whole words"""
+    k = rng.choice([1, 1, 2, 2, 3, 5] if buf < 384 else [1, 1, 2, 2, 3])
     ln = k * buf + rng.choice([-8, -4, 0, 0, 0, 4, 8])
+    if buf > 256 and rng.random() < 0.3:
+        ln = rng.choice([1, 2, 3, 5]) * 256 + rng.choice([-4, 0, 4])
     if big:
         ln = rng.choice([255, 255, 256, 257, 300]) * buf + rng.choice([-4, 0, 0, 4])
     ln = max(4, ln // 4 * 4)
+    if not big and rng.random() < 0.04:
+        ln = 0                      # an empty binary: start packet announcing 0 blocks, no data, end packet
     return [rng.randrange(256) for _ in range(ln)]
 
 
@@ -397,8 +426,15 @@ def gen_case(rng, overflow=False):
     if pre_mode in ("stale-requested", "mixed") and requested:
         for core in rng.sample(requested, min(len(requested), rng.randrange(1, 3))):
             put(core, WAIT, rng.choice([app_id, app_id, app_id % 255 + 1]))
-    return {"chips": chips, "buf": buf, "sdram_sys": 0x60000000 + 4 * rng.randrange(1 << 16),
-            "vcpu_base": 0xe5007000 + 128 * rng.randrange(4), "apps": apps, "app_id": app_id,
+    sdram_sys = rng.choice([0x60000000 + 4 * rng.randrange(1 << 16), 0x60000000 + 4 * rng.randrange(1 << 16),
+                            0x60000000, 0x60240000, 0x67ff0000 + 4 * rng.randrange(1 << 10)])
+    vcpu_base = rng.choice([0xe5007000, 0xe5007000, 0xe5008000, 0xe5000000, 0xf5007000]) + 128 * rng.randrange(4)
+    return {"chips": chips, "buf": buf, "sdram_sys": sdram_sys,
+            "vcpu_base": vcpu_base, "apps": apps, "app_id": app_id,
+            # how the machine encodes its version in sver (semantic version string / legacy fixed point) and how
+            # the caller passes the arguments (map / (filename, targets) / through the controller's context)
+            "sver": rng.choice(["semver", "semver", "legacy"]),
+            "call": rng.choice(["dict", "dict", "pair", "context"]) if n_apps == 1 else rng.choice(["dict", "dict", "context"]),
             "n_tries": n_tries, "wait": rng.random() < 0.5,
             "use_count": (rng.random() < 0.6) if force_count is None else force_count,
             "nn": rng.choice([0, 0, 1, 57, 124, 125, 126]), "missed": missed,
@@ -424,6 +460,19 @@ def stale_more_case(k_stale):
             "missed": [[[1, 0]], [[1, 0]]],
             "pre": [[0, 0, 5 + i, WAIT, 30, [9, 9, 9, 9]] for i in range(k_stale)],
             "missed_mode": "one-chip", "pre_mode": "stale-vs-missed"}
+
+
+def big_buffer_case(buf, use_count):
+    """a machine whose SCP data buffer is not the usual 256 bytes: binaries of exactly two buffers and two
+    buffers + one word, chip (1, 0) misses both fills of the first attempt; every fill must announce exactly
+    the blocks it sends (blocks of up to `buf` bytes) and the call must return with every core loaded"""
+    return {"chips": [[0, 0], [1, 0], [5, 4]], "buf": buf, "sdram_sys": 0x60700000, "vcpu_base": 0xe5007000,
+            "apps": [{"name": 0, "image": [i % 251 for i in range(2 * buf)], "targets": [[0, 0, [1, 2]], [1, 0, [3]]]},
+                     {"name": 1, "image": [(3 * i) % 241 for i in range(2 * buf + 4)],
+                      "targets": [[0, 0, [5]], [5, 4, [1, 17]]]}],
+            "app_id": 30, "n_tries": 2, "wait": False, "use_count": use_count, "nn": 0,
+            "missed": [[[1, 0]], [[1, 0]]], "pre": [], "missed_mode": "all-then-none", "pre_mode": "none",
+            "sver": "legacy" if buf == 512 else "semver", "call": "dict"}
 
 
 def stale_readback_case():
@@ -464,7 +513,7 @@ def run_impl(case, k):
     from rig.machine_control import regions as rg
     from rig.machine_control import scp_connection as sc
     machine = LoadMachine(case["chips"], case["buf"], case["sdram_sys"], case["vcpu_base"],
-                          case["missed"], case["pre"], k)
+                          case["missed"], case["pre"], k, sver=case.get("sver", "semver"))
     before = machine.cores_list()
     net = simnet.Net(machine.handle, lambda i, d: None)
     paths = {}
@@ -499,15 +548,25 @@ def run_impl(case, k):
             res["buf"] = mc.scp_data_length
             mc._nn_id = case["nn"]
             try:
-                mc.load_application(app_map, app_id=case["app_id"], n_tries=case["n_tries"],
-                                    wait=case["wait"], app_start_delay=0.0, use_count=case["use_count"])
+                call = case.get("call", "dict")
+                if call == "pair" and len(app_map) == 1:
+                    (path, targets), = app_map.items()
+                    mc.load_application(path, targets, app_id=case["app_id"], n_tries=case["n_tries"],
+                                        wait=case["wait"], app_start_delay=0.0, use_count=case["use_count"])
+                elif call == "context":
+                    extra = {} if case["use_count"] else {"use_count": False}       # use_count defaults to True
+                    with mc(app_id=case["app_id"], n_tries=case["n_tries"], wait=case["wait"], app_start_delay=0.0):
+                        mc.load_application(app_map, **extra)
+                else:
+                    mc.load_application(app_map, app_id=case["app_id"], n_tries=case["n_tries"],
+                                        wait=case["wait"], app_start_delay=0.0, use_count=case["use_count"])
                 res["outcome"] = "ok"
             except mcm.SpiNNakerLoadingError as e:
                 res["outcome"] = {"loading_error": [
                     {"name": paths[p], "targets": canon_targets(t)} for p, t in e.app_map.items()]}
             except sc.SCPError as e:
                 res["outcome"] = {"error": "SCPError %r" % (e,)}
-            except (ValueError, TypeError, KeyError, IndexError, OverflowError, AttributeError) as e:
+            except (ValueError, TypeError, KeyError, IndexError, OverflowError, AttributeError, struct.error) as e:
                 res["outcome"] = {"error": "%s %s" % (type(e).__name__, e)}
             res["nn"] = mc._nn_id
     finally:
@@ -682,6 +741,13 @@ def judge(ctx, case, res, kinds, rs, n_fills, k, stale=None):
             "wait" if case["wait"] else "start",
             "outcome_" + ("ok" if outcome == "ok" else "loading_error" if "loading_error" in outcome else "other_error"),
             "preclean" if clean else "not_preclean", "resent" if resent else "single_attempt")
+    ctx.tag("buf_%s" % ("le_64" if case["buf"] <= 64 else "128_252" if case["buf"] < 256 else "256" if case["buf"] == 256
+                        else "gt_256"),
+            "sver_" + case.get("sver", "semver"), "call_" + case.get("call", "dict"))
+    if any(len(a["image"]) == 0 for a in case["apps"]):
+        ctx.tag("empty_binary")
+    if any(len(a["image"]) > case["buf"] for a in case["apps"]):
+        ctx.tag("multi_block")
     if not dom:
         ctx.tag("over_255_blocks")
     # ---- undocumented exceptions --------------------------------------------------
@@ -701,12 +767,20 @@ def judge(ctx, case, res, kinds, rs, n_fills, k, stale=None):
     if sorted(m["cores"]) != sorted(res["after"]):
         raise Infra("simulated machine and Lean machine specification disagree on the final core states")
     # ---- (c) oracles on the implementation's behaviour ------------------------------
+    fills_req = split_fills(res["trace"], k)
     for i, r in enumerate(by.get("wf", [])):
         if not r["ok"]:
             key = "fill-malformed" if dom else "ffs-block-count-overflow"
+            f = fills_req[i] if i < len(fills_req) else []
+            announced = (f[0]["arg1"] >> 8) & 0xff if f else None
+            blocks = [q for q in f if q["cmd"] == k["cmdFfd"]]
+            detail = "start packet announces %r blocks, %d data blocks sent carrying %d bytes (longest %d) for a binary of %d bytes on a machine with a %d byte buffer" % (
+                announced, len(blocks), sum(len(q["data"]) for q in blocks), max([len(q["data"]) for q in blocks] or [0]),
+                len(next((a["image"] for a in case["apps"] if i < len(res["opened"]) and a["name"] == res["opened"][i]), [])),
+                case["buf"])
             ctx.violation(key, "fill %d sent by flood_fill_aplx is not well formed (block count / numbering / size / "
-                          "reassembly / id / core-select order)%s" % (
-                              i, "" if dom else ": the binary needs more than 255 blocks, the 8-bit count of the start packet overflows"),
+                          "reassembly / id / core-select order): %s%s" % (
+                              i, detail, "" if dom else "; the binary needs more than 255 blocks, the 8-bit count of the start packet overflows"),
                           case)
             break
     for (t, rg_), r in zip(res["records"], by.get("regions", [])):
@@ -1080,7 +1154,8 @@ def run(ctx):
         "checked against it on every trace",
         "whole-fill miss abstraction: a chip either sees every packet of a fill or none"]
     ctx.assumptions += [
-        "image length and buffer size multiples of 4, at most 255 blocks per binary (beyond: known finding)",
+        "image length and buffer size multiples of 4, buffer at most 1024 bytes (8-bit word count per data block), at most "
+        "255 blocks per binary (beyond: known finding)",
         "requested chips are chips of the machine, cores < 18, binaries target disjoint cores",
         "PreClean for the soundness/exactness theorems: no core waits under the app id, no requested core waits",
         "compress_flood_fill_regions meets its contract (C12): proved for C12's model (compress_contract_discharged), "
@@ -1092,7 +1167,8 @@ def run(ctx):
     try:
         cases = [stale_count_case(), stale_readback_case(), overflow_case(),
                  stale_more_case(1), stale_more_case(2), stale_more_case(3), stale_more_case(5)]
-        n = ctx.scale(300, 6000)
+        cases += [big_buffer_case(b, uc) for b in (128, 260, 512, 1024) for uc in (True, False)]
+        n = ctx.scale(280, 5000)
         if ctx.extended:
             n *= 4
         for i in range(n):
